@@ -13,8 +13,8 @@ func init() {
 		ID: "C02",
 		Info: propInfo{
 			Technique:   "who-may-call + path analysis + finite-domain status propagation (lifecycle table) on the type-checked AST",
-			Explanation: "Decides the in-flight counter protocol structurally: (R02.1) the counter is raised only in the dispatcher path, every call of the dispatcher step is control-dependent on `inflight.Load() < limit.Load()` evaluated in the same loop iteration (a <= or != guard is a violation), and on every path of the step the net number of increments equals the number of hand-offs; (R02.2) it is lowered only in the completion callback, exactly once per invocation and after the worker function (or as the undo of a reservation in the dispatcher path); (R02.3) every value stored into the limit, and into configs.concurrency, comes from a function all of whose returns are provably >= 1 (or from configs.concurrency / a constant >= 1), and TunePool stores before it notifies; (R02.4) from the extracted lifecycle table: the dispatcher goroutine is spawned only by start from status Initiated, and Initiated is stored only after the old signal channel was closed and a fresh one made.",
-			NotDecided:  []string{"a stale dispatcher that is still inside its inner loop when Restart flips the status back to Running", "the peak during concurrent TunePool calls", "anything about the relative timing of the limit store and in-flight jobs"},
+			Explanation: "Decides the in-flight counter protocol structurally: (R02.1) the counter is raised only in the dispatcher path, every call of the dispatcher step is control-dependent on `inflight.Load() < limit.Load()` evaluated in the same loop iteration (a <= or != guard is a violation), and on every path of the step the net number of increments equals the number of hand-offs; (R02.2) it is lowered only in the completion callback, exactly once per invocation and after the worker function (or as the undo of a reservation in the dispatcher path); (R02.3) every value stored into the limit, and into configs.concurrency, comes from a function all of whose returns are provably >= 1 (or from configs.concurrency / a constant >= 1), and TunePool stores before it notifies; (R02.4) from the extracted lifecycle table: the dispatcher goroutine is spawned only by start from status Initiated, and Initiated is stored only after the old signal channel was closed and a fresh one made; (R02.5) the dispatcher goroutine closes a per-run exit channel when it returns, that field is written only by the spawner, and every path of a lifecycle method that re-spawns a dispatcher receives from it after closing the old signal channel and before the spawn (a closed channel still delivers a buffered signal, so without the join the old dispatcher can make a pass next to the new one).",
+			NotDecided:  []string{"the peak during concurrent TunePool calls", "anything about the relative timing of the limit store and in-flight jobs"},
 			Assumptions: []string{"runtime.NumCPU() >= 1", "control calls are sequential (the lifecycle table is a sequential semantics)"},
 		},
 		Run: runC02,
@@ -26,6 +26,7 @@ func runC02(c *Ctx) {
 	c.ruleDecrementSite("R02.2")
 	c.ruleLimitWrites("R02.3")
 	c.ruleOneDispatcher("R02.4")
+	c.ruleDispatcherJoined("R02.5")
 }
 
 // capSym recognises a comparison of the in-flight counter with the limit and
@@ -515,4 +516,115 @@ func countOf(xs []string, x string) int {
 		}
 	}
 	return n
+}
+
+// doneChanOperand: e is the dispatcher's exit channel (the field, or a local only ever assigned from the field).
+func (c *Ctx) doneChanOperand(fn *Func, e ast.Expr) bool {
+	R := c.R
+	if R.FDispDone == "" {
+		return false
+	}
+	info := fn.Info()
+	if selField(info, e) == R.FDispDone {
+		return true
+	}
+	if id, ok := ast.Unparen(e).(*ast.Ident); ok {
+		if obj := info.ObjectOf(id); obj != nil {
+			if all, n := assignedOnlyFrom(fn, obj, func(rhs ast.Expr, idx, cnt int) bool { return selField(info, rhs) == R.FDispDone }); all && n > 0 {
+				return true
+			}
+		}
+	}
+	return false
+}
+
+// ruleDispatcherJoined: a previous run's dispatcher cannot step in the next run. Closing its signal channel does not
+// end it at once (a buffered signal is still delivered by `for range`, and it may be in the middle of a pass), so the
+// tear-down that precedes a re-spawn has to wait for the goroutine's exit: the goroutine closes a per-run channel
+// when it returns, and every path that stores Initiated and spawns a dispatcher receives from that channel after it
+// closed the signal channel and before the spawn.
+func (c *Ctx) ruleDispatcherJoined(rule string) {
+	R := c.R
+	c.Rep.rule(rule, "E2 must-pass-through + who-may-write", "the dispatcher goroutine closes a per-run exit channel on return; every path that re-spawns a dispatcher receives from it between closing the signal channel and the spawn", 3)
+	if R.SpawnDisp == nil || R.DispLoop == nil {
+		return
+	}
+	if !c.Rep.check(R.FDispDone != "", rule, R.SpawnDisp.Short(), "the dispatcher goroutine does not announce its exit", c.P.pos(R.DispLoop.Body), "the goroutine body starts with `defer close(done)` on a channel published in a worker field",
+		"the dispatcher goroutine has no top-level `defer close(x)` of a channel that its spawner publishes in a worker field: Stop/Restart cannot wait for it, so after Restart the previous run's dispatcher can still make a pass (a buffered signal survives the close of its channel) concurrently with the new one — two dispatchers pass the capacity test together") {
+		return
+	}
+	// the exit channel field is written only by the spawner
+	for _, f := range c.P.pkgFuncs(modPath) {
+		if f.Body == nil {
+			continue
+		}
+		info := f.Info()
+		ast.Inspect(f.Body, func(n ast.Node) bool {
+			if as, ok := n.(*ast.AssignStmt); ok {
+				for _, l := range as.Lhs {
+					if selField(info, l) == R.FDispDone {
+						c.Rep.check(f.Root() == R.SpawnDisp, rule, f.Short(), "exit channel field written outside the spawner", c.P.pos(as), "written by the dispatcher spawner",
+							"the dispatcher's exit channel field is overwritten in "+f.Short()+": a tear-down that reads it afterwards waits for the wrong goroutine, or for none")
+					}
+				}
+			}
+			return true
+		})
+	}
+	v := c.vocab([]string{"closechans", "joindisp", "go:dispatcher", "wstatus:", "dispdone="}, map[string]bool{"closechans": true})
+	sr := v.seq(rule, false)
+	sr.condExpr = func(fr *Frame, e ast.Expr, branch bool, ip *Interp, st *State) string {
+		be, ok := ast.Unparen(e).(*ast.BinaryExpr)
+		if !ok || (be.Op != token.EQL && be.Op != token.NEQ) {
+			return ""
+		}
+		x, y := be.X, be.Y
+		if tv, ok := fr.Fn.Info().Types[x]; ok && tv.IsNil() {
+			x, y = y, x
+		}
+		if tv, ok := fr.Fn.Info().Types[y]; !ok || !tv.IsNil() || !c.doneChanOperand(fr.Fn, x) {
+			return ""
+		}
+		if (be.Op == token.EQL) == branch {
+			return "dispdone=nil"
+		}
+		return "dispdone=nonnil"
+	}
+	n := 0
+	for name, f := range c.lifecycleMethods() {
+		if f == R.Start {
+			continue
+		}
+		for _, sg := range sr.segments(f) {
+			if sg.Kind != "path" || !sg.has("go:dispatcher") {
+				continue
+			}
+			gi := sg.index("go:dispatcher")
+			// a spawn that is not preceded by a store of Initiated on the same path is a first start (the status
+			// was Initiated on entry; R02.4: only a restart stores Initiated): there is no previous dispatcher
+			if ii := sg.index("wstatus:Initiated"); ii < 0 || ii > gi {
+				continue
+			}
+			n++
+			ci, ji, nilAt := -1, -1, -1
+			for i, s := range sg.Syms[:gi] {
+				switch s {
+				case "closechans":
+					ci = i
+				case "joindisp":
+					if ci >= 0 {
+						ji = i
+					}
+				case "dispdone=nil":
+					if ci >= 0 {
+						nilAt = i
+					}
+				}
+			}
+			good := ci >= 0 && (ji > ci || nilAt > ci)
+			c.Rep.check(good, rule, name, "dispatcher re-spawned without waiting for the previous one", sg.End, "signal channel closed, previous dispatcher joined (or none was ever spawned), then the spawn",
+				name+" spawns a dispatcher on a path that does not, after closing the old signal channel, wait for the previous dispatcher goroutine to exit: that goroutine still delivers a buffered signal after the close (or is in the middle of a pass) and dispatches concurrently with the new one ["+strings.Join(sg.Syms, " ")+"]")
+		}
+	}
+	c.Rep.check(n > 0, rule, "-", "no re-spawning path found", "", "at least one lifecycle method re-spawns the dispatcher", "no lifecycle method was found that re-spawns the dispatcher: the rule has nothing to check (role resolution changed?)")
 }
